@@ -24,6 +24,7 @@ type C07Params struct {
 	Others   []*CallSpec `json:"others"`
 	WYield   bool        `json:"wyield,omitempty"` // scheduling point at the entry of the client's transport writes
 	HoldSender bool      `json:"hold_sender,omitempty"` // MidWrite: that task stays off the processor until everything else has come to rest
+	MidClose bool        `json:"mid_close,omitempty"` // MidWrite: only the entry of CloseSend's critical section counts
 	MidWrite bool        `json:"mid_write,omitempty"` // the fault lands when, from Pos on, a task of the target call stands at the entry of a transport write (needs WYield)
 	Ambig    bool        `json:"ambig,omitempty"`  // the client's transport reports a write cut short by its context as failed although the envelope was delivered
 }
@@ -121,9 +122,11 @@ func genC07(g *rand.Rand, tier string) any {
 		p.Links[0].Cap = 0 // the open returns only once the server has taken it
 		p.Deadline = false
 	}
-	if p.WYield && !p.Deadline && g.IntN(3) == 0 {
-		// aimed: between a sender's last look at its context and its transport write
+	if !p.Deadline && g.IntN(3) == 0 {
+		// aimed: between a sender's last look at its context and its transport write (or,
+		// without the scheduling point at the transport's entry, its critical section)
 		p.MidWrite = true
+		p.MidClose = g.IntN(3) == 0
 		p.HoldSender = g.IntN(2) == 0
 		p.Links[0].Strict = g.IntN(4) == 0
 	}
@@ -226,7 +229,14 @@ func execC07(e *Env, pp any) {
 	writerName := ""
 	atWrite := func() bool {
 		for _, v := range e.W.Snapshot() {
-			if !v.Done && v.Started && v.Parked && v.Site == "link.write" && strings.HasPrefix(v.Name, "caller.target") && !strings.Contains(v.Name, "/") {
+			// (the entry of a transport write, or the entry of the send path's critical
+			// section in SendMsg / CloseSend: between a sender's look at its context and
+			// what it does next)
+			atSendPath := v.Site == "link.write" || strings.Contains(v.Site, ":SendMsg:lock#") || strings.Contains(v.Site, ":CloseSend:lock#")
+			if p.MidClose {
+				atSendPath = strings.Contains(v.Site, ":CloseSend:lock#")
+			}
+			if !v.Done && v.Started && v.Parked && atSendPath && strings.HasPrefix(v.Name, "caller.target") && !strings.Contains(v.Name, "/") {
 				writerName = v.Name
 				return true
 			}
@@ -307,7 +317,10 @@ func execC07(e *Env, pp any) {
 			// ("link.write": the harness's own scheduling point at the entry of the
 			// transport write; the only thing this goroutine ever writes is the reset)
 			inTeardown := v.LastSite == "internal/client/stream.go:readLoop:cancel#0" || strings.HasPrefix(v.LastSite, "internal/client/stream.go:NewStream:") || v.LastSite == "link.write"
-			if !v.Done && v.Started && v.Goat && inTeardown && containsAny(v.Name, "caller.target/internal/client/stream.go:NewStream:go#") {
+			// (waiting for one of the library's own locks inside the teardown is something
+			// else: the known finding is a reset that sits in the transport's Write)
+			waitsForLock := v.Parked && strings.Contains(v.Site, ":lock#")
+			if !v.Done && v.Started && v.Goat && inTeardown && !waitsForLock && containsAny(v.Name, "caller.target/internal/client/stream.go:NewStream:go#") {
 				rstBlocked = true
 				e.Note("rst.write.blocked")
 			}
